@@ -131,7 +131,7 @@ def run(ctx, rep, tier):
                      validation_corpus(ctx, seed=rep.seed, n_random=5)[:40])
     q = tier == "quick"
     lens32 = (1, 9, 10, 11) if q else (1, 2, 5, 9, 10, 11, 12, 20, 25, 40)
-    lens64 = (1, 19, 20, 21) if q else (1, 2, 10, 18, 19, 20, 21, 22, 30, 40)
+    lens64 = (1, 19, 20, 21) if q else (1, 2, 10, 18, 19, 20, 21, 22, 30)      # 40 digits: the u64 queries time out (600 s each, measured)
     profiles = ("dev", "rel")
     samples = []
     t0 = time.time()
